@@ -2,6 +2,7 @@ package eng
 
 import (
 	"fmt"
+	"go/token"
 	"go/types"
 	"reflect"
 	"strings"
@@ -319,6 +320,50 @@ func init() {
 		"fmt.Errorf": func(in *Interp, fn *ssa.Function, a []Value) Value {
 			s := in.sprintf(a[0].(*Str), in.sliceElems(a[1]))
 			return &IfaceV{typ: in.P.LookupType("errors", "errorString"), val: &Ptr{cell: in.newCell(&StructV{fields: []Value{s}}, "error")}}
+		},
+
+		// ----- unicode / token helpers (ASCII semantics; the unicode tables are not initialised) -----
+		"unicode.IsUpper": func(in *Interp, fn *ssa.Function, a []Value) Value {
+			r := a[0].(*sym.Term)
+			return in.St.And(in.St.Le(in.St.Int('A'), r), in.St.Le(r, in.St.Int('Z')))
+		},
+		"unicode.IsLower": func(in *Interp, fn *ssa.Function, a []Value) Value {
+			r := a[0].(*sym.Term)
+			return in.St.And(in.St.Le(in.St.Int('a'), r), in.St.Le(r, in.St.Int('z')))
+		},
+		"unicode.IsDigit": func(in *Interp, fn *ssa.Function, a []Value) Value {
+			r := a[0].(*sym.Term)
+			return in.St.And(in.St.Le(in.St.Int('0'), r), in.St.Le(r, in.St.Int('9')))
+		},
+		"unicode.IsLetter": func(in *Interp, fn *ssa.Function, a []Value) Value {
+			r := a[0].(*sym.Term)
+			st := in.St
+			return st.Or(st.And(st.Le(st.Int('A'), r), st.Le(r, st.Int('Z'))), st.And(st.Le(st.Int('a'), r), st.Le(r, st.Int('z'))))
+		},
+		"unicode.IsSpace": func(in *Interp, fn *ssa.Function, a []Value) Value { return in.isSpaceByte(a[0].(*sym.Term)) },
+		"go/token.IsExported": func(in *Interp, fn *ssa.Function, a []Value) Value {
+			s := a[0].(*Str)
+			st := in.St
+			switch s.kind {
+			case sConc:
+				return st.Bool(token.IsExported(s.conc))
+			case sEnum:
+				var ds []*sym.Term
+				for i, x := range s.alts {
+					if token.IsExported(x) {
+						ds = append(ds, st.Eq(s.sel, st.Int(int64(i))))
+					}
+				}
+				return st.Or(ds...)
+			case sAtom:
+				in.fail("token.IsExported of an opaque atom")
+			}
+			v := in.toView(s)
+			b := v.at(st.Int(0))
+			return st.And(st.Lt(st.Int(0), v.length), st.Le(st.Int('A'), b), st.Le(b, st.Int('Z')))
+		},
+		"go/ast.IsExported": func(in *Interp, fn *ssa.Function, a []Value) Value {
+			return intrinsics["go/token.IsExported"](in, fn, a)
 		},
 
 		// reflect.TypeOf is only used to fill analysis.Analyzer.ResultType: opaque
